@@ -78,6 +78,9 @@ def call_kwargs(call):
         kw["constraints"] = copy.deepcopy(call["cons"])
     if call.get("loss_type"):
         kw["loss_type"] = call["loss_type"]
+    if call.get("snap") is not None:
+        kw["store_snapshots"] = True
+        kw["store_snapshots_every"] = int(call["snap"])
     return kw
 
 
@@ -136,7 +139,40 @@ def observe(p):
         "obj": np.array(p.obj).copy(),
         "probe": np.array(p.probe).copy(),
         "constraints": jsonable(p.constraints),
+        "snapshots": [[int(sn["iteration"]), jsonable(np.asarray(sn["obj"]))["sha"], jsonable(np.asarray(sn["probe"]))["sha"]]
+                      for sn in p.snapshots],
     }
+
+
+def training_objects(p):
+    """id -> name of every object that carries mutable training state: the four model objects, every
+    nn.Parameter, the optimizers, their state tensors, the schedulers.  (The objects stay alive through
+    `p`, so ids are unique while `p` lives.)"""
+    import torch
+    out = {}
+    for name in ("obj_model", "probe_model", "dset", "detector_model"):
+        m = getattr(p, name)
+        out[id(m)] = name
+        if isinstance(m, torch.nn.Module):
+            for n, t in m.named_parameters(recurse=True):
+                out[id(t)] = f"{name}.{n}"
+        o = getattr(m, "_optimizer", None)
+        if o is not None:
+            out[id(o)] = f"{name}._optimizer"
+            for st in o.state.values():
+                for kk, v in st.items():
+                    if isinstance(v, torch.Tensor):
+                        out[id(v)] = f"{name}._optimizer.state.{kk}"
+        sc = getattr(m, "_scheduler", None)
+        if sc is not None:
+            out[id(sc)] = f"{name}._scheduler"
+    return out
+
+
+def shared_state(a, b):
+    """names (in `a`) of training-state objects that `a` and `b` both hold (`is`-identity)"""
+    ta, tb = training_objects(a), training_objects(b)
+    return sorted(ta[i] for i in set(ta) & set(tb))
 
 
 def rel_dev(a, b):
@@ -157,6 +193,9 @@ def compare(got, ref):
     (discrete observables: 0.0 equal / inf different)"""
     out = {"num_iters": 0.0 if got["num_iters"] == ref["num_iters"] else float("inf"),
            "constraints": 0.0 if got["constraints"] == ref["constraints"] else float("inf"),
+           # snapshots: reports-level comparisons use the digests (exact); run-level ones the iterations recorded
+           "snapshots": 0.0 if [x[0] for x in got.get("snapshots", [])] == [x[0] for x in ref.get("snapshots", [])] else float("inf"),
+           "snapshots_exact": 0.0 if got.get("snapshots", []) == ref.get("snapshots", []) else float("inf"),
            "iter_losses": rel_dev(got["iter_losses"], ref["iter_losses"]),
            "obj": rel_dev(got["obj"], ref["obj"]),
            "probe": rel_dev(got["probe"], ref["probe"])}
@@ -173,7 +212,7 @@ def summary(o):
     return {"num_iters": o["num_iters"], "iter_losses": [float(x) for x in o["iter_losses"]],
             "iter_lrs": {k: [float(x) for x in v] for k, v in sorted(o["iter_lrs"].items())},
             "obj_abs_sum": float(np.abs(o["obj"]).sum()), "probe_abs_sum": float(np.abs(o["probe"]).sum()),
-            "constraints": o["constraints"]}
+            "constraints": o["constraints"], "snapshot_iterations": [x[0] for x in o.get("snapshots", [])]}
 
 
 # ---------------------------------------------------------------------------------------
